@@ -56,3 +56,9 @@ Print Assumptions C07_no_hash_ordered_iteration.
 Print Assumptions C07_label_order_independent.
 Print Assumptions C07_reproducible.
 Print Assumptions C07_entropy_admits_difference.
+
+(* state shared between objects (regenerated scan of the whole package: memoising decorators, mutable class attributes of non-pydantic classes, module-level
+   containers mutated by functions): there is none - the k-th run in an interpreter is the first run: nothing memoised on a function object or kept on a class / module survives a call *)
+Theorem C07_no_shared_mutable_state : gen_no_shared_mutable_state = true.
+Proof. reflexivity. Qed.
+Print Assumptions C07_no_shared_mutable_state.
